@@ -62,6 +62,25 @@ def build_wheel(scratch):
     return whl[0]
 
 
+def build_sdist(scratch):
+    """source distribution from a clean tree (build leftovers of the wheel step removed first: a stale SOURCES.txt would re-add files)"""
+    import tarfile
+    for d in os.listdir(scratch):
+        if d == 'build' or d.endswith('.egg-info'):
+            shutil.rmtree(os.path.join(scratch, d), ignore_errors=True)
+    dist = os.path.join(scratch, 'dist_s')
+    p = subprocess.run([common.PY, 'setup.py', '-q', 'sdist', '--formats=gztar', '-d', dist], cwd=scratch, stdout=subprocess.PIPE, stderr=subprocess.STDOUT, text=True)
+    if p.returncode != 0:
+        raise common.Infra('sdist build failed: %s' % p.stdout[-1500:])
+    tgz = [os.path.join(dist, f) for f in os.listdir(dist) if f.endswith('.tar.gz')][0]
+    names = set()
+    with tarfile.open(tgz) as t:
+        for m in t.getmembers():
+            if m.isfile() and '/' in m.name:
+                names.add(m.name.split('/', 1)[1])
+    return tgz, names
+
+
 def run_digests(files, unpacked=None, mode='lenient'):
     """digests from a subprocess; with `unpacked` the installed copy is used and /repo kept off the path"""
     env = dict(os.environ)
@@ -83,7 +102,7 @@ def run_digests(files, unpacked=None, mode='lenient'):
 
 def run(chk, drv):
     quick = chk.tier == 'quick'
-    chk.cov['rule'] = ('every file of the working tree under the package vs the shipped set of the model vs the file list of a real wheel; then every chosen '
+    chk.cov['rule'] = ('every file of the working tree under the package vs the shipped set of the model vs the file list of a real wheel and of a real sdist; then every chosen '
                        'recording and one synthetic battle per bundled version parsed from the unpacked wheel with the checkout off the path. '
                        'A case = a file (completeness) or a replay (behaviour); non-trivial: Python module or definition file / a replay that yields a summary.')
     files = listing()
@@ -91,7 +110,7 @@ def run(chk, drv):
     shutil.rmtree(scratch, ignore_errors=True)
     try:
         os.makedirs(scratch)
-        for f in files + ['README.md', 'requirements.txt', 'MANIFEST1.in']:
+        for f in files + ['README.md', 'requirements.txt', 'MANIFEST.in', 'setup.cfg', 'pyproject.toml']:
             src = os.path.join(common.REPO, f)
             if os.path.exists(src):
                 dst = os.path.join(scratch, f)
@@ -170,6 +189,28 @@ def run(chk, drv):
                         {'kind': 'installed-replay', 'file': name, 'checkout': r, 'installed': g, 'missing_files': missing_real[:20]})
         for f in missing_real[:50]:
             chk.report('the built distribution lacks %s' % f, {'kind': 'missing-file', 'file': f}, key='missing:' + f)
+        # ---- the source distribution must be complete as well (and, thorough tier, a wheel built from it must equal the wheel built from the tree)
+        tgz, sdist_files = build_sdist(scratch)
+        chk.dist('files:in_sdist', len(sdist_files))
+        missing_sdist = sorted(f for f in needed + ['setup.py'] if f not in sdist_files)
+        for f in missing_sdist[:50]:
+            chk.report('the source distribution lacks %s' % f, {'kind': 'missing-file-sdist', 'file': f}, key='missing-sdist:' + f)
+        if not quick:
+            import tarfile
+            sd = os.path.join(scratch, 'from_sdist')
+            with tarfile.open(tgz) as t:
+                t.extractall(sd)
+            top = os.path.join(sd, os.listdir(sd)[0])
+            whl2 = build_wheel(top)
+            names2 = set()
+            for n in zipfile.ZipFile(whl2).namelist():
+                if '.dist-info/' in n:
+                    continue
+                names2.add(n.split('.data/scripts/')[1] if '.data/scripts/' in n else n)
+            if names2 != wheel_files:
+                chk.report('a wheel built from the source distribution differs from the wheel built from the tree: lacks %s, adds %s' % (
+                    sorted(wheel_files - names2)[:5], sorted(names2 - wheel_files)[:5]), {'kind': 'sdist-wheel', 'lacks': sorted(wheel_files - names2)[:50],
+                                                                                         'adds': sorted(names2 - wheel_files)[:50]})
     finally:
         shutil.rmtree(scratch, ignore_errors=True)
     chk.assumptions.append('setuptools / pip wheel are external: the packaging model is compared with a real build on every run')
